@@ -301,9 +301,49 @@ def viol(v, traces, cases):
     return out
 
 
+def seeded_reset_case(cache, seed: int) -> dict:
+    """Gymnasium API: reset(seed=s) makes the episode a function of s.  A used LeraxToGymEnv is reset with seeds 0 and s twice
+    each and driven with the same actions over a finite MDP that redraws one of three initial states at every step
+    (TimeLimit(1)): the two trajectories under one seed must coincide (they do by chance with probability 3^-9)."""
+    import random
+    from lerax.compatibility.gym import LeraxToGymEnv
+    rng = random.Random(seed)
+    base = tb.gen_mdp(rng, "disc", "disc", nS=4)
+    base["Init"] = [1, 2, 3]
+    base["Obs"] = [0, 1, 2, 3, 5]
+    cfg = tb.with_stack(base, [tb.wrec("TimeLimit", n=1)])
+    g = LeraxToGymEnv(cache.get(cfg))
+    acts = [rng.choice(tb.candidate_actions(cfg)) for _ in range(8)]
+
+    def roll(s):
+        obs, _ = g.reset(seed=s)
+        seq = [int(np.asarray(obs))]
+        for a in acts:
+            obs, rew, term, trunc, _ = g.step(np.int32(a))
+            seq.append((int(np.asarray(obs)), float(rew), bool(term), bool(trunc)))
+        return seq
+    g.reset()
+    g.step(np.int32(acts[0]))
+    s = 1 + rng.randrange(10 ** 6)
+    # different histories precede the two uses of each seed (an ignored seed continues the adapter's own key stream)
+    a1, z1 = roll(s), roll(0)
+    roll(s + 1)
+    z2, a2 = roll(0), roll(s)
+    return {"atoms": {"SeededResetReproducesTheSameTrajectory": a1 == a2, "SeedZeroIsASeed": z1 == z2},
+            "meta": {"seed": s, "first": [a1[:4], a2[:4]], "zero": [z1[:4], z2[:4]]}}
+
+
 def run(ctx: Ctx) -> Report:
     rep = Report()
     cache = tb.EnvCache()
+    sc = [seeded_reset_case(cache, ctx.seed * 31 + i) for i in range(ctx.pick(3, 10))]
+    sv = tracecheck.validate(ctx, "trace/Trace_Atoms.tla", sc, "adapters_seeded")
+    rep.traces += len(sc)
+    rep.parts["lerax_to_gym_seeded_reset"] = {"cases": len(sc), "accepted": len(sv.accepted), "rejected": len(sv.rejected)}
+    for i, (l, clauses) in sorted(sv.rejected.items()):
+        rep.violations.append(Violation("C13:adapter:lerax_to_gym:" + "+".join(clauses),
+                                        f"LeraxToGymEnv.reset(seed=...) on a used adapter: {clauses}: {sc[i]['meta']}", "adapter_seeded",
+                                        {"seed": ctx.seed * 31 + i}))
     allcases = gen_cases(ctx)
     ccases = [c for c in allcases if c["kind"] == "gym_under_collector"]
     cases = [c for c in allcases if c["kind"] != "gym_under_collector"]
@@ -343,6 +383,13 @@ def run(ctx: Ctx) -> Report:
 
 def replay(ctx: Ctx, driver: str, case: dict) -> Report:
     rep = Report()
+    if driver == "adapter_seeded":
+        c = seeded_reset_case(tb.EnvCache(), case["seed"])
+        v = tracecheck.validate(ctx, "trace/Trace_Atoms.tla", [c], "replay")
+        for i, (l, clauses) in v.rejected.items():
+            rep.violations.append(Violation("C13:adapter:lerax_to_gym:" + "+".join(clauses), str(c["meta"]), driver, case))
+        rep.traces = 1
+        return rep
     if case["kind"] == "gym_under_collector":
         tr = rec_gym_under_collector(case["cfg"], case["seed"])
         cv = tracecheck.validate(ctx, "trace/Trace_OnPolicy.tla", [tr], "replay")
